@@ -230,6 +230,22 @@ def stepLine (d : DState) (op obs : String) : DState × String :=
     match LA.parseHex k, LA.parseHex v with
     | some k, some v => (d, s!"b={LA.toHex (LA.Pax.record k v)}")
     | _, _ => (d, "bad-op")
+  | ["paxbody", h] =>
+    match (if h == "-" then some [] else LA.parseHex h) with
+    | none => (d, "bad-op")
+    | some body =>
+      match LA.Pax.parseRecords body.length body with
+      | none => (d, "st=warn")          -- "Ignoring malformed pax attributes"
+      | some kvs =>
+        -- SCHILY.xattr.<name> (1..128 bytes) becomes an extended attribute; other keys are unknown to the reader
+        let pfx : List Nat := [83, 67, 72, 73, 76, 89, 46, 120, 97, 116, 116, 114, 46]
+        let xs := kvs.filterMap fun kv =>
+          let name := kv.1.drop 13
+          if kv.1.take 13 = pfx ∧ 1 ≤ name.length ∧ name.length ≤ 128 then some (hexOrDash (cstr name) ++ ":" ++ hexOrDash kv.2) else none      -- the name is kept as a C string
+        let xs := xs.mergeSort (fun a b => decide (a ≤ b))
+        -- a SCHILY.xattr name of more than 128 bytes is skipped with a warning ("Unable to parse xattr")
+        if kvs.any (fun kv => kv.1.take 13 == pfx && decide ((kv.1.drop 13).length > 128)) then (d, "st=warn") else
+        (d, s!"st=ok n={xs.length} x={if xs.isEmpty then "-" else String.intercalate "," xs}")
   | "open" :: ws =>
     let name := (kv ws "f").getD ""
     let d' : DState := { fmt := parseFmt name, fmtName := name, isOpen := true,
